@@ -691,6 +691,77 @@ def gen_C10_ev(rng):
     return ctx.text()
 
 
+def gen_evstar(rng):
+    """EV* forests (real-valued relations): collections, element-wise arithmetic
+    (divisors nowhere zero, operands distinct), copies to and from multi-terminal
+    forests of every range and between EV* forests of different rules"""
+    ctx = Ctx(rng)
+    ctx.emit("init " + rand_ctopts(rng))
+    d = rand_domain(rng, "D", True, 200, 3)
+    ctx.emit(d.decl())
+    ctx.doms.append(d)
+    evs = []
+    for i in range(rng.choice([1, 2, 2])):
+        f = Forest("T%d" % i, d, True, "real", "evt", rng.choice(RULES_REL), rand_opts(rng))
+        ctx.emit(f.decl())
+        evs.append(f)
+    mts = []
+    for i, rg in enumerate(rng.sample(["real", "int", "bool"], rng.choice([1, 2]))):
+        f = Forest("M%d" % i, d, True, rg, "mt", rng.choice(RULES_REL), rand_opts(rng))
+        ctx.emit(f.decl())
+        mts.append(f)
+    ctx.forests = evs + mts
+    # EV* normalises by division: only powers of two (0.5, 1, 2, 4 as 32, 64, 128, 256) keep
+    # every intermediate value exact in single precision, and only products, quotients,
+    # maxima and minima stay within that set
+    vals = ["64", "64", "128", "32", "256"]
+
+    def coll(f, nonzero=False):
+        nm = ctx.fresh()
+        if nonzero:
+            parts = ["coll", nm, f.name, "max", "32"]      # builder contract: default <= all values
+        else:
+            parts = ["coll", nm, f.name, "max", "0"]
+        for _ in range(rng.choice([1, 2, 3])):
+            parts += [";"] + rand_pos_rel(rng, d, rng.choice([0, .3, .6]), rng.choice([0, .3])) + ["=>", rng.choice(vals)]
+        ctx.emit(" ".join(parts))
+        ctx.edges[nm] = f
+        return nm
+
+    names = [coll(rng.choice(evs)) for _ in range(rng.randint(2, 4))]
+    for _ in range(rng.randint(4, 10)):
+        r = rng.random()
+        if r < 0.5:
+            a, b = rng.choice(names), rng.choice(names)
+            op = rng.choice(["mult", "mult", "max", "min", "div"])
+            if op == "div":
+                b = coll(rng.choice(evs), nonzero=True)
+            fr = rng.choice(evs)
+            n = ctx.fresh()
+            ctx.emit("apply %s %s %s %s %s" % (n, fr.name, op, a, b))
+            ctx.edges[n] = fr
+            if op in ("max", "min", "mult"):
+                names.append(n)
+        elif r < 0.85:
+            a = rng.choice(list(ctx.edges))
+            fa = ctx.edges[a]
+            fr = rng.choice(evs) if fa.lab == "mt" else rng.choice(ctx.forests)
+            n = ctx.fresh()
+            ctx.emit("unary %s %s copy %s" % (n, fr.name, a))
+            ctx.edges[n] = fr
+            if fr.lab == "evt" and fa.range == "real":
+                names.append(n)
+            if rng.random() < 0.5 and fa.range == "real" and fr.range == "real":
+                m = ctx.fresh()
+                ctx.emit("unary %s %s copy %s" % (m, fa.name, n))
+                ctx.edges[m] = fa
+                ctx.emit("eq %s %s" % (m, a))
+        else:
+            f = rng.choice(mts)
+            gen_leaf(ctx, f)
+    return ctx.text()
+
+
 def gen_C05_ev(rng):
     """element-wise arithmetic and comparisons on EV+ forests (with +infinity);
     the undefined scalar cases must raise the documented errors"""
